@@ -168,6 +168,7 @@ def run(prog, tier, extra=None):
     R7 = res.rule("C03.tx-apply-total", "Transaction::on_chain_reorganization applies every input and every output, in both directions, for every transaction type", floor=2)
     R6 = res.rule("C03.marker-by-hash", "a ring slot's longest-chain marker is set to the position of the block's hash (or cleared); ring positions are not computed with wrapping arithmetic", floor=2)
     R8 = res.rule("C03.chain-segments", "the two chain segments handed to wind/unwind are collected by following parent links from a tip (or the longest-chain index), never a by-height lookup that ignores which block is on the chain", floor=2)
+    R9 = res.rule("C03.ring-positions", "positions in the block ring are computed from the ring size (2 x genesis_period), never from genesis_period itself", floor=10)
     R3 = res.rule("C03.index-owner", "only the table's bodies write the longest-chain index / in_longest_chain", floor=8)
 
     wind = prog.body(BC + "wind_chain::{closure#0}")
@@ -512,6 +513,53 @@ def run(prog, tier, extra=None):
             res.add(Finding(R8, "C03.chain-segments|%s|anchors" % seg, "Blockchain::%s no longer follows previous_block_hash (anchor moved?)" % seg, sb.loc(0)))
         else:
             res.sample({"rule": R8, "segment": seg, "bodies": len(bodies8), "sources": "tip argument / previous_block_hash / longest-chain index only"})
+    # R9: the ring has get_ring_buffer_size() = 2 * genesis_period slots. A slot index computed from genesis_period directly (e.g. "the
+    # slot before slot 0 is genesis_period - 1") points into the middle of the ring: after unwinding the block at the wrap-around id
+    # the index loses its tip (latest block id 0) and whatever is decided from it - ledger checks, rebroadcasts - is switched off.
+    from ..expr import Chaser as _Ch9, has_field as _hf9, walk as _wk9, show as _sh9
+    for p9, b9 in sorted(prog.bodies.items()):
+        if not p9.startswith(CORE + "consensus::blockring::BlockRing::") or b9.is_promoted or "::tests::" in p9 or p9.endswith("::get_ring_buffer_size") or p9.endswith("::new"):
+            continue
+        if p9.endswith("BlockRing::print_lc"):
+            # one named exception: a trace!-only dump that walks slots 0..genesis_period (the first half of the ring); it writes nothing
+            # and returns nothing, so no decision depends on the positions it visits
+            continue
+        ch9 = _Ch9(b9)
+        idx_exprs = []
+        def _collect(e, bb):
+            for y in _wk9(e):
+                if y[0] == "index" and _hf9(y[1], "blockring::BlockRing", "ring"):
+                    idx_exprs.append((bb, y[2]))
+        for bb, blk in enumerate(b9.blocks):
+            for st in blk["s"]:
+                if st[0] == "=":
+                    _collect(ch9.rvalue(st[2], 0), bb)
+                    # stores through ring[idx]
+                    for pr in st[1][1]:
+                        if isinstance(pr, list) and pr[0] == "i":
+                            _collect(("index", ("field", ("local", st[1][0], None), "saito_core::core::consensus::blockring::BlockRing", "ring"), ch9.origin(["cp", [pr[1], []]])), bb)
+            t9 = blk["t"]
+            for a in t9.get("args", []):
+                _collect(ch9.origin(a), bb)
+            # `self.ring[i]` on a Vec is a call of Index::index / IndexMut::index_mut
+            if t9["k"] == "call" and (call_name(t9) or "").rsplit("::", 1)[-1] in ("index", "index_mut") and len(t9["args"]) == 2 \
+                    and _hf9(ch9.origin(t9["args"][0]), "blockring::BlockRing", "ring"):
+                idx_exprs.append((bb, ch9.origin(t9["args"][1])))
+        for bb, ie in idx_exprs:
+            res.instance(R9)
+            seen9, work9, bad9 = set(), [ie], None
+            while work9:
+                e = work9.pop()
+                for y in _wk9(e):
+                    if y[0] == "field" and y[2].endswith("blockring::BlockRing") and y[3] == "genesis_period":
+                        bad9 = e
+                    if y[0] == "local" and y[1] not in seen9:
+                        seen9.add(y[1])
+                        for d in b9.defs(y[1]):
+                            work9.append(ch9.rvalue(d[3], 0) if d[0] == "stmt" else ch9.call(d[2], d[1], 0) if d[0] == "call" else ("unknown",))
+            if bad9 is not None:
+                res.add(Finding(R9, "C03.ring-positions|%s" % p9.replace("::{closure#0}", ""), "%s indexes the ring with a position computed from genesis_period (`%s`), but the ring has "
+                                "2 * genesis_period slots: the slot before slot 0 is ring size - 1" % (p9.replace(CORE, ""), _sh9(bad9)[:60]), b9.loc(bb)))
     res.explanation = (
         "Decides the lockstep and ownership structure without which the four views (UTXO set, by-height index, per-block flag, wallet) cannot describe the same chain: "
         "exactly-once, same-direction updates of all four in wind_chain (after an accepting validate) and unwind_chain, who may mutate a UtxoSet, who may call the "
